@@ -194,6 +194,8 @@ pub struct Shrinker {
     /// the violation needs a particular interleaving (the sequential schedule does not show it):
     /// candidates are then also re-searched under fresh schedule seeds
     pub schedule_sensitive: bool,
+    /// minimisation stops (keeping the best file so far) when this instant has passed
+    pub deadline: Option<std::time::Instant>,
 }
 
 const RESEARCH_SALTS: u64 = 24;
@@ -202,6 +204,11 @@ impl Shrinker {
     /// Does the candidate still show the same violation class, in a fresh process? Tries the
     /// sequential schedule first, then the inherited decision list (leniently).
     fn test(&mut self, cand: &ReplayFile) -> Option<ReplayFile> {
+        if let Some(d) = self.deadline {
+            if std::time::Instant::now() > d {
+                return None;
+            }
+        }
         let last = cand.scenarios.len() - 1;
         let mut attempts: Vec<(&str, u64)> = vec![("sequential", 0), ("lenient", 0)];
         if self.schedule_sensitive && cand.scenarios[last].threads.len() >= 2 {
